@@ -159,15 +159,21 @@ def _calc_slash(c):
     return isinstance(c, tuple) and len(c) == 2 and c[0] == 'calc' and '/' in [o for o in c[1] if isinstance(o, str)]
 
 
+def _is_value(x):
+    return isinstance(x, tuple) and len(x) > 0 and all(isinstance(i, tuple) and len(i) == 2 and (i[0] is None or i[0] in (' ', ',', '/')) and isinstance(i[1], tuple) for i in x) and x[0][0] is None
+
+
 def _VALUE_WITH_LATER_CALC_SLASH(x):
-    """a value (tuple of (sep, component)) in which a calc() with a '/' operator is not the first component"""
-    return (isinstance(x, tuple) and len(x) > 1 and all(isinstance(i, tuple) and len(i) == 2 and (i[0] is None or i[0] in (' ', ',', '/')) for i in x)
-            and x[0][0] is None and any(_calc_slash(c) for _, c in x[1:]))
+    """a top-level value (tuple of (sep, component)) in which a calc() with a '/' operator occurs - directly or nested in a function - in a component
+    that is not the first one"""
+    return _is_value(x) and len(x) > 1 and any(_has(c, _calc_slash) for _, c in x[1:])
 
 
 def _fix_calc_slash(x):
     if _VALUE_WITH_LATER_CALC_SLASH(x):
-        return tuple((sep, ('calc', tuple('*' if o == '/' else o for o in c[1])) if (k > 0 and _calc_slash(c)) else c) for k, (sep, c) in enumerate(x))
+        def fix(c):
+            return ('calc', tuple('*' if o == '/' else o for o in c[1])) if _calc_slash(c) else None
+        return tuple((sep, _map(c, fix) if k > 0 else c) for k, (sep, c) in enumerate(x))
     return None
 
 
@@ -387,7 +393,7 @@ def _spellings_for(tier, seed, level):
             rnd = random.Random(seed)
             qs = set(quick)
             rest = [s for s in allsp if s not in qs]
-            extra = rnd.sample(rest, min(len(rest), 10 if level == 'core' else 60))
+            extra = rnd.sample(rest, min(len(rest), 4 if level == 'core' else 60))
             _SP_CACHE[key] = quick + extra
         else:
             _SP_CACHE[key] = gen.spellings(tier, seed, level)
